@@ -1,0 +1,14 @@
+//go:build verif
+
+// Contracts for package fix, read by /verif/engine (govc). Comment-only: with
+// or without the build tag this file contributes no executable code.
+package fix
+
+//@ spec anchored(d string, i int, t string) bool = (i == 0 || code(d, i-1) == 1) && sub(d, i, i+len(t)+1) == cat(t, "=")
+//@ spec valueAt(d string, j int) string = ite(idxfrom(d, SOH, j) < 0, from(d, j), sub(d, j, idxfrom(d, SOH, j)))
+
+//@ func ValueByTag(msg []byte, tag string) (res []byte, err error)
+//@   safety[C11]
+//@   witness k = ite(idx(string(msg), cat(SOH, tag, "=")) >= 0, idx(string(msg), cat(SOH, tag, "=")) + 1, 0)
+//@   ensures[C18] @anchored imp(err == nil, anchored(string(msg), k, tag))
+//@   ensures[C18,C16] @value imp(err == nil, string(res) == valueAt(string(msg), k + len(tag) + 1))
